@@ -215,6 +215,12 @@ pub trait Driver: Send + Sync {
     fn write_owned(&self, _doc: &Doc, _sink: Box<dyn crate::io_adv::faulty::DynSink>) -> Option<io::Result<()>> {
         None
     }
+    /// The document as text rendered by the harness itself, not by a noodles writer (text
+    /// formats only): input that keeps what noodles' writers normalise away — CRLF line ends, a
+    /// missing final newline, raw UTF-8 where noodles would percent-encode.
+    fn raw_input(&self, _doc: &Doc) -> Option<Vec<u8>> {
+        None
+    }
     /// Has an async twin (reader, writer).
     fn has_async(&self) -> (bool, bool) {
         (false, false)
